@@ -189,7 +189,7 @@ func init() {
 			mu.Unlock()
 			res.sample(map[string]any{"schedule": c, "slow_members": slow > 0, "observed": obs}, 6)
 			if what != "" {
-				res.fail(Failure{Finding: "C07:group-lifecycle", What: what, Case: map[string]any{"schedule": c.Steps, "slow_members": slow > 0},
+				res.fail(Failure{Finding: "C07:group-lifecycle", What: what, Case: map[string]any{"group_schedule": c.Steps, "slow_members": slow > 0},
 					Expected: c, Observed: obs})
 			}
 		})
